@@ -301,6 +301,57 @@ func checkC17(replay string) {
 		r.Obs("corpus_injected_annotations", st.Annotations)
 		os.RemoveAll(root)
 	}
+	// diagnostics whose position is remapped by a //line directive to a file that cannot be read (goyacc / template
+	// output): no excerpt is possible, but code, analyzer and documentation link are still due
+	{
+		files := map[string]string{
+			"go.mod": "module remap\n\ngo 1.25\n",
+			"d/d.go": "package d\n\n// T is annotated.\n// @immutable\n// @constructor NewT\n// @testonly\n// @packageonly\ntype T struct{ F int }\n\n// NewT is the constructor.\nfunc NewT() *T { return &T{} }\n\n// Helper is annotated.\n// @testonly\n// @packageonly\nfunc Helper() {}\n\n// Reset is annotated.\n// @testonly\n// @packageonly\nfunc (t *T) Reset() {}\n\n// I is an interface.\ntype I interface{ M() }\n",
+			"u/u.go": "package u\n\nimport \"remap/d\"\n\n//line missing/gen.y:40\nfunc f() {\n\tx := d.NewT()\n\tx.F = 1\n\tx.F += 1\n\tx.F++\n\t_ = d.T{}\n\t_ = new(d.T)\n\tvar z d.T\n\t_ = z\n\td.Helper()\n\tx.Reset()\n}\n\n// B does not implement d.I.\n// @implements d.I\ntype B struct{}\n\n// C names an unknown package.\n// @implements nosuch.I\ntype C struct{}\n\n// D names an unknown interface.\n// @implements d.NoSuch\ntype D struct{}\n",
+		}
+		root := ggrun.Scratch()
+		ggrun.WriteTree(root, files)
+		fs := map[string]string{}
+		for k, v := range files {
+			fs["module/"+k] = v
+		}
+		if ok, out := ggrun.CompileCheck(root); !ok {
+			os.RemoveAll(root)
+			base.Harness("C17 remap module does not compile: %s", out)
+		}
+		for _, text := range []bool{false, true} {
+			res := ggrun.Run(ggrun.Opts{Dir: root, Args: []string{"./..."}, Text: text})
+			if bad, why := res.Crashed(text); bad {
+				r.Violate("crash/remapped-position", why+"\n"+head(res.Stderr, 2000), fs)
+				continue
+			}
+			if text {
+				// every header line of the text output is followed by a help line before the next header
+				blocks := strings.Split(res.Stdout+res.Stderr, "error: [")
+				for _, b := range blocks[1:] {
+					r.Eval(1)
+					if !strings.Contains(b, "= help: https://") {
+						r.Violate("format/remapped/help-link", fmt.Sprintf("text mode: diagnostic without documentation link: %q", head("error: ["+b, 300)), fs)
+					}
+				}
+				continue
+			}
+			seen := map[string]bool{}
+			for _, d := range res.Diags {
+				r.Eval(1)
+				seen[d.Code] = true
+				cat := refCodes[d.Code]
+				if !strings.Contains(d.Msg, "   = help: https://") || !strings.Contains(d.Msg, "/"+refPage[cat]) {
+					r.Violate("format/remapped/help-link", fmt.Sprintf("%s at %s:%d (position remapped by a //line directive to an unreadable file): no documentation link in %q", d.Code, d.File, d.Line, head(d.Msg, 300)), fs)
+				}
+				r.Distinct(d.Code + "/remapped-format")
+			}
+			if len(seen) < 12 {
+				r.Inconclusive(fmt.Sprintf("remapped module produced only %d distinct codes", len(seen)))
+			}
+		}
+		os.RemoveAll(root)
+	}
 	r.Obs("diagnostics_checked_by_code", codeCount)
 	r.Obs("suppression_reruns_by_code", suppressed)
 	if r.NViol() == 0 && len(codeCount) < 16 {
